@@ -207,4 +207,26 @@ def extension_corpus():
         "void f ( void ) { q = nullptr ; char16_t c16 ; char32_t c32 ; wchar_t w ; }",
         "void f ( void ) { x = __builtin_choose_expr ( 1 , a , b ) ; y = __builtin_offsetof ( struct s , a ) ; }",
         "void f ( void ) { __typeof__ ( x ) y ; __typeof__ ( int * ) p ; _Alignas ( 8 ) int z ; }",
+        "void f ( void ) { x = ( { int t = 1 ; t + 1 ; } ) ; y = ( { ; } ) ; }",
+        "void f ( void ) { p = && L ; goto * p ; L : ; }",
+        "void f ( void ) { switch ( x ) { case 1 ... 3 : break ; } }",
+        "int a [ 4 ] = { [ 0 ... 2 ] = 1 } ;",
+        "void f ( void ) { __label__ l1 ; l1 : ; }",
+        "void f ( void ) { __auto_type v = 1 ; }",
+        "__int128 big ; unsigned __int128 ubig ; _Float128 q ; __complex__ double cd ; _Complex float cf ;",
+        "_Atomic int ai ; _Atomic ( int ) aj ; int * _Atomic pa ; _Atomic ( int * ) pb ;",
+        "_Noreturn void die ( void ) ; inline static int sq ( int x ) { return x * x ; } _Thread_local int tl ; extern _Thread_local int etl ;",
+        "int x __attribute__ ( ( aligned ( 8 ) , unused ) ) ; __attribute__ ( ( noreturn ) ) void g ( void ) ; struct __attribute__ ( ( packed ) ) s { char c ; int i ; } ;",
+        "void f ( int * restrict p , int a [ static 3 ] , int b [ const ] , int c [ * ] ) ;",
+        "void f ( void ) { __asm__ ( \"mov %1, %0\" : \"=r\" ( x ) : \"r\" ( y ) : \"memory\" ) ; }",
+        "__asm__ ( \"nop\" ) ; int v __asm__ ( \"sym\" ) ;",
+        "enum e { A , B = 2 , C } ; enum e v = A ; typedef enum { X , Y } t ;",
+        "void f ( void ) { x = __builtin_va_arg ( ap , int ) ; __builtin_va_start ( ap , n ) ; __builtin_va_end ( ap ) ; }",
+        "void f ( void ) { x = _Generic ( y , int : 1 , char * : 2 , default : 3 ) ; z = _Alignof ( int ) + sizeof ( int [ 3 ] ) ; }",
+        "void f ( void ) { x = ( int [ ] ) { 1 , 2 } [ 0 ] ; s = ( struct s ) { . c = 1 , . i = 2 } ; }",
+        "_Static_assert ( sizeof ( int ) >= 2 , \"int\" ) ; struct t { _Static_assert ( 1 , \"m\" ) ; int k ; } ;",
+        "void f ( void ) { for ( int i = 0 , j = 1 ; i < j ; i ++ , j -- ) continue ; do x -- ; while ( x ) ; }",
+        "void f ( void ) { __extension__ ( { 1 ; } ) ; __extension__ x ++ ; __extension__ __real__ z ; }",
+        "__extension__ typedef long long ll ; __extension__ struct es { int k ; } ev ; __extension__ int ef ( void ) { return 0 ; }",
+        "typedef int ( * fpt ) ( int , ... ) ; fpt tab [ 2 ] ; int ( * ( * pp ) ( void ) ) [ 3 ] ; void ( * signal ( int , void ( * ) ( int ) ) ) ( int ) ;",
     ]]
